@@ -45,6 +45,7 @@ fn main() {
         "dbgwrite-run" => dbgwrite::run(rest),
         "emit-run" => emit::run(rest),
         "projreg-run" => projreg::run(rest),
+        "retainmgr-run" => retain::mgr_run(rest),
         "resfault-run" => resfault::run(rest),
         "stfeat" => stfeat::run(rest),
         "stfeat-child" => stfeat::child(rest),
